@@ -240,7 +240,9 @@ def _upl_underflow(f):
     try:
         i = max(j for j, t in enumerate(toks) if t.startswith('L'))
         xs = [tok_to_float(t) for t in toks[i + 1:]]
-        return sum(math.log(x) for x in xs if x > 0) < -700.0 or 'inf' in f.get('detail', '') or 'nan' in f.get('detail', '')
+        # the product is formed in the observation type: binary64 underflows below e^-708, f32 already below e^-87
+        lim = -85.0 if len(toks) > 1 and toks[1] == 'f32' else -700.0
+        return sum(math.log(x) for x in xs if x > 0) < lim or 'inf' in f.get('detail', '') or 'nan' in f.get('detail', '')
     except Exception:
         return False
 
